@@ -88,6 +88,98 @@ def accumulator_total(repo):
     return results[0]
 
 
+# ---------------------------------------------------------------- einsum contractions of ewald.py with the meaning of each axis
+def labels3d(node, env):
+    src = ast.unparse(node).replace(" ", "")
+    if src in ("self.atom_charges", "-self.atom_charges"):
+        return ["ion"]
+    if src == "self.gpoints" or src == "gpoints":
+        return env.get("gpoints", ["kpoint", "xyz"])
+    if src == "self.lattice_displacements":
+        return ["image", "xyz"]
+    if isinstance(node, ast.Name):
+        if node.id in env:
+            return env[node.id]
+        raise TranslationError("operand %s has unknown axes" % node.id)
+    if isinstance(node, ast.UnaryOp):
+        return labels3d(node.operand, env)
+    if isinstance(node, ast.BinOp):
+        if src.endswith("[:,:,np.newaxis,:]+self.lattice_displacements") and isinstance(node.left, ast.Subscript):
+            base = labels3d(node.left.value, env)
+            return base[:-1] + ["image", "xyz"]
+        sides = []
+        for side in (node.left, node.right):
+            try:
+                sides.append(labels3d(side, env))
+            except TranslationError:
+                sides.append(None)  # a scalar (self.alpha, 2 * np.pi, ...)
+        known = [x for x in sides if x is not None]
+        if len(known) == 1 or (len(known) == 2 and known[0] == known[1]):
+            return known[0]
+        raise TranslationError("axes of %s" % src)
+    if isinstance(node, ast.Call):
+        f = ast.unparse(node.func).replace(" ", "")
+        a = node.args
+        if f in ("gpu.erfc", "gpu.cp.cos", "gpu.cp.sin", "gpu.cp.exp", "gpu.cp.asarray", "np.asarray", "gpu.cp.abs"):
+            return labels3d(a[0], env)
+        if f in ("gpu.cp.linalg.norm", "np.linalg.norm"):
+            ax = [k.value for k in node.keywords if k.arg == "axis"]
+            if len(ax) == 1 and ast.literal_eval(ax[0]) == -1:
+                return labels3d(a[0], env)[:-1]
+        if f == "real_cij":
+            return labels3d(a[0], env)[:-1]
+        if f == "configs.dist.pairwise" and [ast.unparse(x).replace(" ", "") for x in a] == ["self.atom_coords[np.newaxis]", "configs.configs"]:
+            return ["walker", "ion", "electron", "xyz"]
+        if f == "gpu.cp.prod":
+            inner = ast.unparse(a[0]).replace(" ", "")
+            if inner == "self.atom_charges[np.asarray(ion_inds)]" and env.get("ion_inds") == ["__ionpair_index__"]:
+                return ["ionpair"]
+    raise TranslationError("axes of %s" % src)
+
+
+def contractions3d(repo):
+    from gen_ewald2d import type_einsum
+    path = os.path.join(repo, "pyqmc/observables/ewald.py")
+    tree = ast.parse(open(path).read())
+    funcs = {}
+    for n in ast.walk(tree):
+        if isinstance(n, ast.FunctionDef):
+            funcs[n.name] = n
+    plan = {"ewald_ion": {}, "ewald_electron": {}, "reciprocal_space_electron": {"configs": ["walker", "electron", "xyz"]},
+            "select_big": {"gpoints": ["kpoint", "xyz"]}, "generate_positive_gpoints": {"gpts": ["coef", "kpoint"], "recvec": ["coef", "xyz"]}}
+    sites = []
+    for fname, env0 in plan.items():
+        fn = funcs.get(fname)
+        if fn is None:
+            raise TranslationError("ewald.py: function %s not found" % fname)
+        env = dict(env0)
+        for st in ast.walk(fn):
+            if not isinstance(st, ast.Assign) or len(st.targets) != 1:
+                continue
+            t, v = st.targets[0], st.value
+            vs = ast.unparse(v).replace(" ", "")
+            if isinstance(t, ast.Tuple) and len(t.elts) == 2 and all(isinstance(e, ast.Name) for e in t.elts):
+                if vs == "dist.dist_matrix(self.atom_coords[np.newaxis])":
+                    env[t.elts[0].id], env[t.elts[1].id] = ["one", "ionpair", "xyz"], ["__ionpair_index__"]
+                elif vs == "configs.dist.dist_matrix(configs.configs)":
+                    env[t.elts[0].id], env[t.elts[1].id] = ["walker", "pair", "xyz"], ["__pair_index__"]
+                continue
+            if not isinstance(t, ast.Name):
+                continue
+            for sub in ast.walk(v):
+                if isinstance(sub, ast.Call) and ast.unparse(sub.func).replace(" ", "") == "gpu.cp.einsum":
+                    spec = sub.args[0].value.replace(" ", "")
+                    ops = [labels3d(x, env) for x in sub.args[1:] if not (isinstance(x, ast.keyword))]
+                    sites.append({"function": fname, "line": sub.lineno, "target": t.id, "spec": spec, "operands": ops, "typed": type_einsum(spec, ops)})
+            try:
+                env[t.id] = labels3d(v, env)
+            except TranslationError:
+                pass
+    if len(sites) < 5:
+        raise TranslationError("only %d einsum contractions found in ewald.py" % len(sites))
+    return sites
+
+
 ORDER = ["ne", "S1", "S2", "V", "alpha", "ee_sum", "ei_sum", "ion_ion_sum", "ke", "ee", "ei", "ecp", "ii", "grad2"]
 
 
@@ -104,22 +196,32 @@ def gen(repo):
         txt, names = definition("acc_" + k, d[k], ORDER)
         lines.append(txt)
         sigs["acc_" + k] = names
+    from gen_ewald2d import coq_str_list
+    sites = contractions3d(repo)
+    rows = []
+    for i, st in enumerate(sites):
+        ins, out = st["spec"].split("->")
+        rows.append("  (%s, %s, %s)%s (* %s line %d: %s = einsum(\"%s\") *)" % (
+            "[" + "; ".join(coq_str_list(x) for x in ins.split(",")) + "]", coq_str_list(out),
+            "[" + "; ".join("[" + "; ".join("Ax_" + l for l in op) + "]" for op in st["operands"]) + "]", ";" if i + 1 < len(sites) else "", st["function"], st["line"], st["target"], st["spec"]))
+    lines.append("(* every einsum of ewald.py with the meaning of each operand axis *)")
+    lines.append("Definition ewald3d_sites : list site := [\n" + "\n".join(rows) + "\n].")
     header = ("(* GENERATED by /verif/translator/gen_energy.py from /repo (pyqmc/observables/ewald.py: set_ewald_constants, ee_const, ei_const, energy;\n"
               "   pyqmc/observables/accumulators.py: EnergyAccumulator.__call__) on every run — do not edit.\n"
               "   S1 = sum of ion charges, S2 = sum of squared ion charges, V = cell volume, ne = number of electrons;\n"
               "   ee_sum / ei_sum / ion_ion_sum = the real+reciprocal sums computed elsewhere. *)\n"
-              "From Coq Require Import Reals.\nOpen Scope R_scope.\n\n")
-    return header + "\n".join(lines) + "\n", sigs, sorted(d)
+              "From Coq Require Import Reals List Ascii.\nFrom PyQMC Require Import base.Einsum.\nImport ListNotations.\nOpen Scope R_scope.\n\n")
+    return header + "\n".join(lines) + "\n", sigs, sorted(d), sites
 
 
 def main_for(repo, outdir):
-    txt, sigs, keys = gen(repo)
+    txt, sigs, keys, sites = gen(repo)
     os.makedirs(outdir, exist_ok=True)
     path = os.path.join(outdir, "Energy_Gen.v")
     old = open(path).read() if os.path.exists(path) else None
     if old != txt:
         open(path, "w").write(txt)
-    return {"signatures": sigs, "accumulator_keys": keys}
+    return {"signatures": sigs, "accumulator_keys": keys, "contractions": [{k: st[k] for k in ("function", "line", "spec", "operands", "typed")} for st in sites]}
 
 
 if __name__ == "__main__":
